@@ -35,6 +35,7 @@ import (
 	"github.com/idena-network/idena-go/core/state"
 	"github.com/idena-network/idena-go/crypto"
 	"github.com/idena-network/idena-go/stats/collector"
+	"github.com/idena-network/idena-go/vm/embedded"
 
 	"verifh/internal/sim"
 	"verifh/internal/tr"
@@ -97,6 +98,8 @@ type scenCfg struct {
 	graph      [][2]int // delegation graph scenario (edges delegator -> delegatee over keys 1..4), exported by TLC from EpochLoop.tla
 	heavy      bool
 	reorgs     bool
+	contracts  bool // the generator also deploys embedded contracts (receipts, gas cost, contract stake in every replica's evaluation)
+	dawn       bool // a network before its first validation: nobody is validated (network size 0), the god address proposes
 	faults     bool // now and then a replica's insertion of a proposal FAILS (content-store fault) and the round is lost
 	replays    bool
 	sched      schedule
@@ -150,6 +153,15 @@ func newHist(seed int64, id int, cfg *scenCfg, out *tr.W) *hist {
 	if cfg.big {
 		for i := 24; i < nkeys; i++ {
 			w.Allocs = append(w.Allocs, sim.Alloc{Key: i, State: state.Verified, Balance: sim.Dna(10, 1), Stake: sim.Dna(int64(10+rnd.Intn(90)), 1)})
+		}
+	}
+	if cfg.dawn {
+		for i := range w.Allocs {
+			if w.Allocs[i].State != state.Undefined {
+				w.Allocs[i].State = state.Candidate
+			}
+			// (with a network size of zero the fee rate - and with it the minimal contract stake - is at its maximum)
+			w.Allocs[i].Balance = new(big.Int).Mul(w.Allocs[i].Balance, big.NewInt(100))
 		}
 	}
 	h := &hist{w: w, rnd: rnd, out: out, id: id, props: map[int]*replica{}, recs: map[string]*txRec{}, ledgers: map[uint64]*sim.Ledger{}, fresh: 15, cfg: cfg,
@@ -608,6 +620,30 @@ func (h *hist) genTxs() []*txRec {
 			}
 		}
 	}
+	if h.cfg.contracts && (h.cfg.dawn || h.rnd.Intn(3) == 0) {
+		// an embedded contract deployment (2-of-2 multisig): a receipt with gas used and gas cost, coins moved into contract
+		// stake - every replica evaluates it again, some of them twice (validate, then insert)
+		var rich []int
+		stake := new(big.Int).Mul(s.FeePerGas(), big.NewInt(3000000*2))
+		if stake.Sign() == 0 {
+			stake = sim.Dna(10, 1)
+		}
+		need := new(big.Int).Add(stake, sim.Dna(300, 1))
+		for _, k := range h.funded() {
+			if pend[k] == 0 && s.GetBalance(h.w.Addrs[k]).Cmp(need) > 0 {
+				rich = append(rich, k)
+			}
+		}
+		if len(rich) > 0 {
+			from := h.pick(rich)
+			att := attachments.CreateDeployContractAttachment(embedded.MultisigContract, nil, nil, common.ToBytes(byte(2)), common.ToBytes(byte(2)))
+			payload, err := att.ToBytes()
+			if err != nil {
+				panic(err)
+			}
+			add(h.mkTx(from, types.DeployContractTx, nil, stake, payload, 0, 0, pend), true)
+		}
+	}
 	return res
 }
 
@@ -910,6 +946,11 @@ func (h *hist) block() bool {
 	if h.ref.n.Chain.Head.Height() != height {
 		// diagnosis: is the proposal path itself nondeterministic?  re-propose on the same head many times
 		roots := map[string]int{}
+		if !blk.IsEmpty() {
+			// the refused proposal itself counts: a node whose later proposals on the same head differ from its first one
+			// evaluates the same situation differently (node-local state left by the first evaluation)
+			roots[fmt.Sprintf("%x/%x/txs=%d/flags=%d", blk.Root().Bytes()[:6], blk.IdentityRoot().Bytes()[:6], len(blk.Body.Transactions), blk.Header.Flags())]++
+		}
 		for i := 0; i < 60; i++ {
 			h.w.SetNow(blk.Header.Time())
 			p := prop.n.Chain.ProposeBlock([]byte{})
@@ -1420,6 +1461,7 @@ func main() {
 	filterFile := flag.String("filter", "", "filter scenarios exported by TLC from Filter.tla (json lines)")
 	gasFile := flag.String("gas", "", "gas-boundary transaction lists exported by TLC from Gas.tla (json lines)")
 	fsync := flag.Bool("fsync", false, "add a replica that falls behind and catches up through the real full-sync code")
+	contracts := flag.Bool("contracts", false, "the generator also deploys embedded contracts; one more history (id 800) on a network before its first validation (nobody validated)")
 	faults := flag.Bool("faults", false, "now and then a replica's insertion of a proposal fails (content-store fault) and the round is lost")
 	reorgs := flag.Bool("reorgs", false, "the network switches forks now and then (real ResetTo on every replica)")
 	flag.Parse()
@@ -1504,7 +1546,7 @@ func main() {
 		if *only >= 0 && i != *only {
 			continue
 		}
-		cfg := &scenCfg{blocks: *nb, epochs: *epochs, nProposers: 6, big: *big && i == 0, replays: *replays, heavy: *heavy, reorgs: *reorgs, fsync: *fsync, faults: *faults}
+		cfg := &scenCfg{blocks: *nb, epochs: *epochs, nProposers: 6, big: *big && i == 0, replays: *replays, heavy: *heavy, reorgs: *reorgs, fsync: *fsync, faults: *faults, contracts: *contracts}
 		if len(scheds) > 0 {
 			cfg.sched = scheds[i%len(scheds)]
 		}
@@ -1526,6 +1568,24 @@ func main() {
 		}
 		h.fsCatchup("end")
 		h.finish()
+	}
+	if *contracts && *only < 0 {
+		// a network before its first validation: nobody is validated (network size 0: the size fee of every transaction is
+		// zero while contract gas still costs), the god address proposes every block
+		cfg := &scenCfg{blocks: 40, epochs: false, nProposers: 6, contracts: true, dawn: true}
+		if len(scheds) > 0 {
+			cfg.sched = scheds[0]
+		}
+		h := newHist(seed, 800, cfg, w)
+		h.start()
+		for b := 0; b < cfg.blocks; b++ {
+			if !h.block() {
+				refused++
+				break
+			}
+			blocks++
+		}
+		// (no follower replay: without validated identities the identity state has no version to start from)
 	}
 	_ = collector.NewStatsCollector
 	fmt.Fprintf(os.Stderr, "histories=%d blocks=%d refused=%d lines=%d\n", *nh, blocks, refused, w.N)
